@@ -24,6 +24,7 @@ import (
 	"verif/internal/dohmem"
 	"verif/internal/enum"
 	"verif/internal/ev"
+	"verif/internal/racepass"
 	"verif/internal/tlsref"
 	"verif/vsched"
 )
@@ -444,6 +445,9 @@ func Run(r *ev.Run) {
 	})
 	r.Set("executions", execs)
 	r.Set("outcome_choice_points", points)
+	// supplementary and sampled; reported separately, never counted as exploration: the DialFunc that NewDialer installs (which
+	// the scenarios above replace by a fake) called concurrently with different TLS configs shares nothing between attempts
+	racepass.Run(r, "./checks/c17/racepass/", "concurrent attempts of the Dialer that NewDialer returns", "8 goroutines x 40 attempts, each with its own tls.Config, against a loopback listener")
 }
 
 // Debug runs one scenario with a fixed outcome vector (development aid).
